@@ -18,6 +18,8 @@ Cases: three families, seed = <seed>:
  G (rest) generated clauses  p(R) :- <Xi = ti in random order, R = T somewhere>  with the endings answer / findall(T,
    k(K), L) / assertz(st(T)) (bindings also AFTER the findall / assertz: they must not reach the copies); answers, saved
    values and the st/1 facts read after the query finished are compared with the reference interpreter.
+L (3 cases) a list of 150 / 400 elements and a 300-deep right-nested term whose outer variable is bound first and whose
+   elements are bound afterwards: get_value at the answer holds no Variable at any position and denotes the same term after backtracking.
 non-trivial = H: at least one step bound a variable and a probe was resolved through it; P: the query has an answer
 with a non-variable binding; G: the query has an answer.
 """
@@ -217,6 +219,24 @@ def run_h(sc):
             now = _facts(yp, 'st')
             if now != stored:
                 probs.append('st/1 facts after backtracking: %s, expected %s' % (show(now), show(stored)))
+            # the caller's own probe terms (the same objects that were converted at every step) reflect the CURRENT bindings -
+            # none - again, and the bindings of a second, different history made afterwards
+            for j, (ep, p) in enumerate(zip(eprobes, probes)):
+                if probs:
+                    break
+                check_py('probe %d after backtracking: to_python(t)' % j, lambda: E.to_python(ep), p)
+                check_value('probe %d after backtracking: get_value(t)' % j, E.get_value(ep), p, deref_free=False)
+            if not probs and evs:
+                other = T.atom('other_value')
+                g2 = iter(E.unify(evs[0], real.to_engine(other, {})))
+                try:
+                    next(g2)
+                    b2 = {}
+                    _unify(pool[0], other, b2, [])
+                    for j, (ep, p) in enumerate(zip(eprobes, probes)):
+                        check_py('probe %d under a new binding of V0: to_python(t)' % j, lambda: E.to_python(ep), resolve(p, b2))
+                finally:
+                    g2.close()
     finally:
         VarTracker.stop()
     if probs:
@@ -407,11 +427,83 @@ def p_cases(seed, np_):
     return out
 
 
+def run_long(sc):
+    """family L: a long list / deep term whose outer variable is bound FIRST and whose elements are bound later, one by one
+    (size well beyond any small bound): get_value at the answer holds no variable at any position, and still denotes the same
+    list after everything was undone"""
+    n, shape = sc['n'], sc['shape']
+    yp = E.YP()
+    xs = [yp.variable() for _ in range(n)]
+    R = yp.variable()
+    if shape == 'list':
+        outer = yp.makelist(xs)
+    else:                       # right-nested f(X0, f(X1, ... end))
+        outer = yp.atom('end')
+        for x in reversed(xs):
+            outer = yp.functor('f', [x, outer])
+    opened = []
+    probs = []
+    try:
+        for a, b in [(R, outer)] + [(x, yp.atom('e%d' % i)) for i, x in enumerate(xs)]:
+            g = iter(E.unify(a, b))
+            next(g)
+            opened.append(g)
+        gv = E.get_value(R)
+
+        def walk(v):
+            """iterative walk WITHOUT dereferencing: the atom names in order, or the position of the first Variable"""
+            out = []
+            stack = [v]
+            while stack:
+                t = stack.pop()
+                if isinstance(t, E.Variable):
+                    return None, len(out)
+                if isinstance(t, E.Functor):
+                    stack.extend(reversed(t._args))
+                elif isinstance(t, E.Atom):
+                    out.append(t.name())
+            return out, None
+        names, at = walk(gv)
+        want = [nm for i in range(n) for nm in ['e%d' % i]]
+        if names is None:
+            probs.append('get_value at the answer still holds a Variable after %d atoms (of %d elements)' % (at, n))
+        else:
+            got = [x for x in names if x.startswith('e') and x != 'end']
+            if got != want:
+                probs.append('get_value at the answer denotes %d elements %s..., expected %d' % (len(got), got[:3], n))
+        for g in reversed(opened):
+            g.close()
+        opened = []
+        if not probs:
+            names2, at2 = walk(gv)
+            if names2 != names:
+                probs.append('after backtracking the saved value changed (first Variable after %s atoms)' % at2)
+    finally:
+        for g in reversed(opened):
+            g.close()
+    return not probs, '; '.join(probs) or 'ok', True
+
+
 def worker(args):
     seed, count, part, parts = args
     acc = Acc()
     nh, np_, ng = split(count)
     order = 0
+    if part == 0:
+        for sc in (dict(family='L', n=150, shape='list'), dict(family='L', n=400, shape='list'), dict(family='L', n=300, shape='nest')):
+            order += 1
+            old = sys.getrecursionlimit()
+            sys.setrecursionlimit(20000)
+            try:
+                ok, detail, nt = S.with_timeout(60, run_long, sc)
+            except S.Timeout:
+                acc.skip('timeout')
+                continue
+            finally:
+                sys.setrecursionlimit(old)
+            acc.evaluation(digest(sc['n'], sc['shape']))
+            if not ok:
+                acc.fail((order, 0), sc, detail, cls='L: ' + _cls(detail))
     for i in range(nh):
         order += 1
         if i % parts != part:
@@ -469,6 +561,10 @@ def run(seed, count):
 
 
 def replay(sc):
+    if sc['family'] == 'L':
+        sys.setrecursionlimit(20000)
+        ok, detail, _ = run_long(sc)
+        return ok, detail
     if sc['family'] == 'H':
         ok, detail, _ = run_h(sc)
         return ok, detail
